@@ -15,6 +15,8 @@
     carries a link; the SDR repository holds records of every type of IPMI v2.0 ch. 43, only some of which
     have an entity and an ID string; a full sensor record names one of twelve linearisation functions
     (table 43-1 byte 24), not all of which are defined for every raw reading or threshold byte.
+  * A sensor is named by (owner, owner LUN, number) - table 43-1 / 43-2 bytes 6-8; Get Sensor Reading reaches it
+    on its LUN (`SensorKey`, `readSensorOf`), and the API twin of the printing commands (`apiTwin`).
 
   Core Lean only.
 -/
@@ -120,6 +122,46 @@ def sdrRecordTypes : List (Nat × Bool × Bool) := [
   (0x08, false, false), (0x09, false, false),
   (0x10, true, true), (0x11, true, true), (0x12, true, true),
   (0x13, false, false), (0x14, false, false), (0xC0, false, false)]
+
+/-! ### which sensor a record names, and the API twin of the printing commands -/
+
+/-- IPMI v2.0 table 43-1 (full) / 43-2 (compact sensor record), record key bytes 6-8: sensor owner id, sensor
+owner LUN (byte 7 bits [1:0]) and sensor number.  Together they name the sensor: one management controller may
+implement up to 255 sensors on EACH of its LUNs, so the same number on another LUN is another sensor. -/
+structure SensorKey where
+  ownerLun : Nat
+  number : Nat
+  deriving Repr, DecidableEq
+
+/-- Get Sensor Reading (§35.14, table 35-15): NetFn Sensor/Event 04h, command 2Dh, data byte 1 = sensor number;
+the sensor's LUN is the responder LUN of the request.  As seen at the interface: (LUN, NetFn, command + data). -/
+def getSensorReading (lun number : Nat) : Nat × Nat × List Nat := (lun, 0x04, [0x2d, number])
+
+/-- the request that reads the sensor a record describes -/
+def readSensorOf (k : SensorKey) : Nat × Nat × List Nat := getSensorReading k.ownerLun k.number
+
+/-- how the API call that corresponds to a printing command names the LUN -/
+inductive TwinLun where
+  | ownerLun       -- `get_sensor_reading(number, owner_lun)`
+  | lun0           -- `get_sensor_reading(number)`: the API's default, LUN 0
+  deriving Repr, DecidableEq
+
+/-- The API twin of the commands that print a sensor (command, record type ↦ LUN of the Get Sensor Reading):
+`sdr show <id>` / `sdr showall` of a full sensor record correspond to `get_device_sdr(id)` +
+`get_sensor_reading(number, owner_lun)`; `sdr list` (both record types) and the compact branch of `sdr show` /
+`sdr showall` to `get_sensor_reading(number)` - the tool as shipped reads LUN 0 there whatever the record says,
+which was judged an observation (DESIGN §9.7), so the twin does the same. -/
+def apiTwin : List (String × Nat × TwinLun) := [
+  ("sdr list", 0x01, .lun0), ("sdr list", 0x02, .lun0),
+  ("sdr show", 0x01, .ownerLun), ("sdr show", 0x02, .lun0),
+  ("sdr showall", 0x01, .ownerLun), ("sdr showall", 0x02, .lun0)]
+
+def TwinLun.of : TwinLun → SensorKey → Nat
+  | .ownerLun, k => k.ownerLun
+  | .lun0, _ => 0
+
+/-- the Get Sensor Reading of the API twin for a record with key `k` -/
+def twinRequest (l : TwinLun) (k : SensorKey) : Nat × Nat × List Nat := getSensorReading (l.of k) k.number
 
 /-- table 43-1, byte 24 [6:0]: linearisation -/
 inductive Lin where
